@@ -17,8 +17,10 @@ import (
 	"context"
 	"encoding/json"
 	"fmt"
+	"strconv"
 	"strings"
 	"testing"
+	"time"
 
 	"github.com/titpetric/vuego"
 
@@ -251,6 +253,12 @@ var embAlias = map[string]bool{"ID": true, "Code": true, "Title": true, "Tags": 
 
 func isEmbRoot(k string) bool { return k == "eroot" || k == "*eroot" || k == "proot" }
 
+// Named element types: numbers whose Go type is not a predeclared one.
+type Qty int
+
+// Ratio is a named float32.
+type Ratio float32
+
 // goVal builds the Go value of a description: internal/vals for everything it knows, plus the
 // embedding struct kinds of this package ("emb", "pemb", "*emb" and slices of them), also
 // inside []any and maps.
@@ -274,6 +282,29 @@ func goVal(v vals.V) any {
 		out := make([]map[string]any, len(v.L))
 		for i, e := range v.L {
 			out[i], _ = goVal(vals.V{K: "map", M: e.M}).(map[string]any)
+		}
+		return out
+	case "[]qty":
+		out := make([]Qty, len(v.L))
+		for i, e := range v.L {
+			n, _ := strconv.Atoi(e.S)
+			out[i] = Qty(n)
+		}
+		return out
+	case "[2]ratio":
+		var out [2]Ratio
+		for i, e := range v.L {
+			if i < 2 {
+				f, _ := strconv.ParseFloat(e.S, 32)
+				out[i] = Ratio(f)
+			}
+		}
+		return out
+	case "[]dur":
+		out := make([]time.Duration, len(v.L))
+		for i, e := range v.L {
+			n, _ := strconv.Atoi(e.S)
+			out[i] = time.Duration(n)
 		}
 		return out
 	case "emb":
